@@ -65,6 +65,11 @@ def c13_r1(ctx):
             ctx.viol((f.id, "two-factories", k), "sections are hashed into different factories", el[0].where)
         ctx.ok()
     if seen_params != [1, 2, 3]:
+        others = [lp for lp in lps if not (lp["iter"] and all(o[0][0] == "param" for o in lp["iter"]))]
+        if len(seen_params) < 3 and others:
+            # sections walked through some other structure (an array of the three lists, a
+            # helper taking the section): this reader cannot see which list goes where
+            raise AnalysisError("idiom not recognised: %s does not iterate its three parameters in three loops of its own (%d loop(s) over something else)" % (f.id, len(others)))
         ctx.viol((f.id, "section-order"), "the serialiser does not hash parameters 1,2,3 each once in order (hashes %s)" % seen_params, f.where(0))
     # result returned is that factory's
     res = f.calls_to("ticket::TicketFactory::result")
